@@ -221,6 +221,42 @@ func curveSections(r *vlib.Run) {
 			}
 			x += gap
 		}
+		if n >= 3 && rng.Intn(5) == 0 {
+			// a curve of lower degree written with one more control point (degree elevation) and
+			// then kept to 8-13 significant digits, as a file format would: its leading
+			// coefficient is neither zero nor of the size of the others
+			low := ctrl[:n-1]
+			m := n - 2 // degree of low
+			el := make([][2]float64, n)
+			for i := 0; i < n; i++ {
+				a := float64(i) / float64(m+1)
+				for k := 0; k < 2; k++ {
+					var prev, cur float64
+					if i > 0 {
+						prev = low[i-1][k]
+					}
+					if i <= m {
+						cur = low[i][k]
+					}
+					el[i][k] = a*prev + (1-a)*cur
+				}
+			}
+			digits := 8 + rng.Intn(6)
+			for i := range el {
+				for k := 0; k < 2; k++ {
+					if v := el[i][k]; v != 0 {
+						q := math.Pow(10, float64(digits)-math.Ceil(math.Log10(math.Abs(v))))
+						el[i][k] = math.Round(v*q) / q
+					}
+				}
+			}
+			ctrl = el
+			minGap = math.Inf(1)
+			for i := 0; i+1 < n; i++ {
+				minGap = math.Min(minGap, ctrl[i+1][0]-ctrl[i][0])
+			}
+			c.Count("bezier.inverse_x.nearly_elevated_curves", 1)
+		}
 		if rng.Intn(2) == 0 { // decreasing in x
 			for i, j := 0, n-1; i < j; i, j = i+1, j-1 {
 				ctrl[i], ctrl[j] = ctrl[j], ctrl[i]
@@ -323,8 +359,24 @@ func curveSections(r *vlib.Run) {
 				ctrl[2] = ctrl[3]
 			}
 		}
+		if !collapsed && n >= 3 && rng.Intn(6) == 0 {
+			// nearly straight / nearly lower-degree: the inner control points sit on the chord's
+			// equal subdivision up to a relative 1e-13..1e-8 (an arc that is almost a segment)
+			off := math.Pow(10, -13+5*rng.Float64())
+			chord := math.Hypot(ctrl[n-1][0]-ctrl[0][0], ctrl[n-1][1]-ctrl[0][1])
+			for i := 1; i < n-1; i++ {
+				a := float64(i) / float64(n-1)
+				for k := 0; k < 2; k++ {
+					ctrl[i][k] = ctrl[0][k]*(1-a) + ctrl[n-1][k]*a + off*chord*rng.NormFloat64()
+				}
+			}
+			c.Count("bezier.length.nearly_straight_curves", 1)
+		}
 		b := toBezier(ctrl)
 		relTol := logUniform(rng, 1e-6, 1e-2)
+		if rng.Intn(8) == 0 {
+			relTol = logUniform(rng, 1e-10, 1e-6)
+		}
 		var lo, hi float64
 		for _, depth := range []int{8, 11, 14, 16} {
 			lo, hi = bezierLengthBounds(ctrl, depth)
